@@ -177,6 +177,111 @@ SKIPS = [(), ('linear',), ('Linear',), ('^0$',), ('1',), (r'\.0$',),
          ('y$', '^Lin')]
 
 
+# ------------------------------------------------------------- GPT-NeoX
+class ColumnParallelLinear(nn.Linear):
+    pass
+
+
+class RowParallelLinear(nn.Linear):
+    pass
+
+
+GPT_LEAVES = ['Col', 'Row', 'Lin', 'FrozenCol', 'ReLU', 'SharedRow',
+              'HalfFrozenRow']
+GPT_SKIPS = [(), ('column',), ('Column',), ('parallel',), ('^0$',),
+             ('ColumnParallelLinear',), (r'\.1$', 'row'), ('a|x',),
+             ('linear$',)]
+
+
+def gpt_leaf(kind, shared):
+    if kind == 'Col':
+        return ColumnParallelLinear(3, 2)
+    if kind == 'Row':
+        return RowParallelLinear(3, 2, bias=False)
+    if kind == 'Lin':
+        return nn.Linear(3, 2)
+    if kind == 'FrozenCol':
+        m = ColumnParallelLinear(3, 2)
+        for p in m.parameters():
+            p.requires_grad_(False)
+        return m
+    if kind == 'HalfFrozenRow':
+        m = RowParallelLinear(3, 2)
+        m.bias.requires_grad_(False)
+        return m
+    if kind == 'ReLU':
+        return nn.ReLU()
+    return shared
+
+
+def gpt_build(tree, shared):
+    if isinstance(tree, str):
+        return gpt_leaf(tree, shared)
+    kind, kids = tree
+    mods = [gpt_build(k, shared) for k in kids]
+    if kind == 'Seq':
+        return nn.Sequential(*mods)
+    if kind == 'Dict':
+        return nn.ModuleDict(dict(zip(['x', 'y', 'z', 'u', 'v'], mods)))
+    return Box(mods)
+
+
+def gpt_ref(model, skip):
+    seen, out = set(), []
+
+    def walk(mod, name):
+        if id(mod) in seen:
+            return
+        seen.add(id(mod))
+        kids = [(n, m) for n, m in mod._modules.items() if m is not None]
+        if not kids:
+            cls = type(mod).__name__
+            if (cls.lower() in ('columnparallellinear', 'rowparallellinear')
+                    and all(p.requires_grad for p in mod.parameters())
+                    and not any(re.search(p, name) for p in skip)
+                    and not any(re.search(p, cls) or re.search(p, cls.lower())
+                                for p in skip)):
+                out.append((name, mod))
+        for n, m in kids:
+            walk(m, f'{name}.{n}' if name else n)
+
+    walk(model, '')
+    return out
+
+
+def gpt_case(part, item):
+    tree, skips = item
+    from vf import gptenv
+
+    gptenv.install()
+    from kfac.distributed import TorchDistributedCommunicator
+    from kfac.gpt_neox.preconditioner import register_modules
+
+    for skip in skips:
+        shared = RowParallelLinear(3, 2)
+        model = gpt_build(tree, shared)
+        part.count('evaluations')
+        det = {'tree': tree, 'skip': skip, 'gpt': True}
+        try:
+            layers = register_modules(
+                model, model_parallel_group=None, skip_layers=list(skip),
+                tdc=TorchDistributedCommunicator())
+        except Exception as e:  # noqa
+            part.violation(f'gpt-exception:{type(e).__name__}',
+                           f'tree={tree} skip={skip}: {e}', det)
+            continue
+        got = sorted((name, id(mod)) for mod, (name, _) in layers.items())
+        exp = sorted((n, id(m)) for n, m in gpt_ref(model, skip))
+        if got != exp:
+            part.violation(
+                'gpt-registered-set',
+                f'GPT-NeoX register_modules tree={tree} skip={skip}: '
+                f'registered {[n for n, _ in got]} expected '
+                f'{[n for n, _ in exp]}', det)
+        elif exp:
+            part.seen('nontrivial', ('gpt', repr(tree), tuple(skip)))
+
+
 def main(run: core.Run):
     thorough = run.tier == 'thorough'
     maxn = 5 if thorough else 4
@@ -194,6 +299,14 @@ def main(run: core.Run):
     run.notes['trees'] = len(items)
     run.notes['skip_lists'] = len(skips)
     core.pmap(run, tree_case, items)
+    gitems = []
+    for n in range(1, 4 + (1 if thorough else 0)):
+        for sh in shapes(n):
+            for tree in labelings(sh, GPT_LEAVES if n <= 3 else
+                                  GPT_LEAVES[:4]):
+                gitems.append((tree, GPT_SKIPS))
+    run.notes['gpt_trees'] = len(gitems)
+    core.pmap(run, gpt_case, gitems)
     run.c['states'] = run.c.get('evaluations', 0)
     run.c['transitions'] = run.c.get('evaluations', 0)
     run.c['distinct_nontrivial'] = len(run.distinct.get('nontrivial', ()))
@@ -208,8 +321,9 @@ def main(run: core.Run):
         'module')
     run.sample({'tree': items[len(items) // 2][0], 'skip': list(skips[3])})
     run.sample({'tree': items[-1][0], 'skip': list(skips[-1])})
-    run.assumptions.append('GPT-NeoX register_modules is covered by the '
-                           'GPT part (needs the DeepSpeed stand-ins)')
+    run.assumptions.append('GPT-NeoX register_modules is run with the '
+                           'DeepSpeed stand-ins of gptenv.py; its class '
+                           'names are matched as written and lower-cased')
 
 
 def replay(run, data):
@@ -218,5 +332,8 @@ def replay(run, data):
     def tup(t):
         return t if isinstance(t, str) else (t[0], [tup(k) for k in t[1]])
     part = core.Part()
-    tree_case(part, (tup(d['tree']), [tuple(d['skip'])]))
+    if d.get('gpt'):
+        gpt_case(part, (tup(d['tree']), [tuple(d['skip'])]))
+    else:
+        tree_case(part, (tup(d['tree']), [tuple(d['skip'])]))
     run.merge(part.dump())
